@@ -54,6 +54,21 @@ CHECKS = {
              'changes are restrictions, outer-before-inner order, partial defaults are the bound value of the own name).',
         note='displayed default/annotation values.',
         design='DESIGN.md section 3 (C10), appendix B7/B8'),
+    'C07': dict(
+        technique=TECH + 'interprocedural exception-escape analysis over the resolved call graph (with conditional re-raise specialisation), path enumeration of the fallback chain, call-cycle detection',
+        text='Decides the structural clauses C07.R1-R6 (fallback discipline and containment of internal signals, stage order and '
+             'forger-first, source handling in get_ast, recursion guard on the user-driven cycle, probe discipline, Sphinx hook, '
+             'result type). C07.R3 is a recorded known finding (D17).',
+        note='"only narrows the def parameter list", totality over the standard-library corpus, implicit TypeError/KeyError of dynamically typed values.',
+        design='DESIGN.md section 3 (C07)'),
+    'C15': dict(
+        technique=TECH + 'interprocedural exception-escape analysis (explicit raises/asserts, vetted external raisers), handler-wrapping and validating-construction rules',
+        text='Decides the structural clauses C15.R1-R5 (fold steps wrapped by ValueError -> IncompatibleSignatures, explicit raises '
+             'escaping the public algebra are ValueErrors or reviewed, results built through the validating constructor, upgrade '
+             'with DeprecationWarning on entry, discovery converts algebra failures into its fallback).',
+        note='absence of implicit exception types (KeyError, TypeError, RecursionError) from dynamically typed expressions; '
+             'well-formedness of values beyond "built by the validating constructor".',
+        design='DESIGN.md section 3 (C15)'),
     'C19': dict(
         technique=TECH + 'sibling cross-check of the two partial branches (argument flow into _mask), partial column of the mask table, effect ordering',
         text='Decides the structural clauses C19.R1-R4 (both partial branches call _mask with the same shape, partial rows of the '
